@@ -70,7 +70,7 @@ _c("remove_redundant_accidentals", params={"self": "Note"}, requires=VALID, retu
    old={"old_name": "self.name", "old_octave": "self.octave"},
    ensures=[("letter-plus-net-accidentals", "shape(self.name, old_name[0], net(old_name))"),
             ("same-pitch-class-same-octave", "pc(self.name) == pc(old_name) and self.octave == old_octave")],
-   modifies=["param:self"], havoc={"self.name": "str"}, properties=["C10"], battery="notes")
+   modifies=["param:self"], havoc={"self.name": "str"}, properties=["C10"], battery="notes_many_accidentals")
 
 _c("from_int",
    params={"self": "Note", "integer": "int"}, requires="integer >= 0", returns="Note",
